@@ -157,6 +157,7 @@ class Ctx:
                 self.broken.append({'kind': 'translation', 'target': modname + suf, 'error': 'generated file does not compile',
                                     'detail': r['err'][-2000:]})
                 self.say(f"[gen] {modname}{suf}.v does not compile:\n{r['err'][-1500:]}")
+        self.model_lines = {k: sorted(v) for k, v in gen.LINES.items()}
         self.say(f"[gen] {len(targets)} targets -> {modname}_R.v/{modname}_F.v in {time.time()-t0:.1f}s "
                  f"({sum(1 for t in targets if not t.error)} translated)")
         return ok
@@ -506,6 +507,7 @@ class Ctx:
                 'broken': [{k: v for k, v in b.items() if k != 'detail'} for b in self.broken[:10]],
                 'partial': partial,
                 'coqchk': getattr(self, 'coqchk_result', None),
+                'source_lines_inside_model': {k: _ranges(v) for k, v in getattr(self, 'model_lines', {}).items()},
             },
             'assumptions': list(assumptions),
             'wall_s': round(wall, 2),
@@ -562,6 +564,18 @@ def parse_evals(out):
                 vals.append(float.fromhex(t) if 'x' in t else float(t))
         res.append(('val', vals))
     return res
+
+
+def _ranges(xs):
+    """[1,2,3,7,8] -> '1-3,7-8'"""
+    out, i = [], 0
+    while i < len(xs):
+        j = i
+        while j + 1 < len(xs) and xs[j + 1] == xs[j] + 1:
+            j += 1
+        out.append(f"{xs[i]}-{xs[j]}" if j > i else str(xs[i]))
+        i = j + 1
+    return ','.join(out)
 
 
 def load_findings(pid):
